@@ -146,8 +146,23 @@ pub fn val_of(ty: Ty, raw: u16, d: i64) -> Val {
    }
 }
 
+fn has_agg(items: &[BodyItem]) -> bool {
+   items.iter().any(|it| match it {
+      BodyItem::Agg { agg, .. } => !matches!(agg, Aggregator::Not),
+      BodyItem::Disj(ds) => ds.iter().any(|d| has_agg(d)),
+      _ => false,
+   })
+}
+
+/// Programs with aggregates get duplicate-free input vectors: a caller that pushes the same tuple twice makes a
+/// multiplicity-sensitive aggregate count it twice, which is not claimed to be a defect (the input is then not a set).
+pub fn wants_set_inputs(prog: &Program) -> bool {
+   prog.rules.iter().any(|r| has_agg(&r.body)) || prog.macros.iter().any(|m| has_agg(&m.body))
+}
+
 pub fn realize(raw: &RawDb, prog: &Program) -> Db {
    let d = DOMS[raw.dom_sel];
+   let dedup = wants_set_inputs(prog);
    let mut db = Db::default();
    for (rel, rows) in input_rels(prog).iter().zip(raw.rels.iter()) {
       let mut out: Vec<Row> = vec![];
@@ -160,6 +175,9 @@ pub fn realize(raw: &RawDb, prog: &Program) -> Db {
             if !keys.insert(key) {
                continue;
             }
+         }
+         if dedup && out.contains(&row) {
+            continue;
          }
          out.push(row);
       }
